@@ -8,6 +8,7 @@ from ..ref import secp, base58 as r58, bech32 as rb, script as rscript, txref, i
 from .common import rand_bytes, k32
 
 PROP = "C16"
+REPEAT_SAMPLE = {"quick": 15, "thorough": 60}   # expensive cases: small repeat pass
 LEVEL = "exploration"
 RULE = ("bits.tx.send_tx is run against a scripted scantxoutset answer (JSON text -> json.loads, so amounts are the floats a "
         "node returns): UTXO sets of 1..6 outputs, arbitrary txids, vout 0..5, amounts over the whole range incl. the "
@@ -73,10 +74,37 @@ def gen_cases(tier, seed):
             "flag": FLAGS[0] if rng.random() < 0.55 else rng.choice(FLAGS), "recipient": rng.choice(["p2pkh", "p2sh", "segwit0", "segwit1", "pubkey", "raw"]),
             "change": rng.choice(["default", "default", "p2pkh", "segwit0"]), "m_n": rng.choice([[1, 1], [1, 2], [2, 2], [2, 3], [3, 3]]),
         }
+    # change exactly on / around the dust threshold and the fee (the two constants coincide only for the default fee)
+    for j, (total, fee, f) in enumerate(_boundary_cases(rng, 80 if q else 800)):
+        yield "send", {"kind": KINDS[j % len(KINDS)], "signed": j % 4 == 0, "salt": rng.getrandbits(48), "net": NETS[j % 3], "n_utxo": 1,
+                       "vout_mode": "zero", "amount_mode": f"fixed:{total}", "fraction": f, "fee": fee, "version": 1, "locktime": 0, "flag": 1,
+                       "recipient": "p2pkh", "change": ["default", "p2pkh"][j % 2], "m_n": [1, 1]}
+    # signatures whose low-S value is SHORT with its top bit set (needs the 00 sign pad; ~1 in 256 otherwise): the nonce
+    # is ground with the reference EC for the very digest send_tx signs
+    for j in range(8 if q else 60):
+        yield "send_ground", {"kind": ["p2pkh-c", "p2wpkh", "p2pk-c", "p2sh-p2wpkh"][j % 4], "salt": rng.getrandbits(48), "net": NETS[j % 3]}
+
+
+def _boundary_cases(rng, n):
+    """(total, fee, fraction) triples whose change lands on the dust / fee boundaries (computed like the code does)."""
+    out = []
+    tries = 0
+    while len(out) < n and tries < 20000:
+        tries += 1
+        total = rng.choice([100000000, 123456789, 5000000, 29000000, 99999999])
+        fee = rng.choice([200, 999, 1000, 1001, 5000, 12345])
+        target = rng.choice([fee - 1, fee, fee + 1, 999, 1000, 1001, 1, 0, (fee + 1000) // 2])
+        if target < 0 or target >= total // 2:
+            continue
+        f = (total - target) / total
+        rest = total - int(f * total)
+        if abs(rest - target) <= 1 and 0 < f < 1:
+            out.append((total, fee, f))
+    return out
 
 
 def required(tier):
-    return {"send.returned": 450, "send.signed_decided": 300, "send.unsigned_decided": 50, "inputs.verified": 400,
+    return {"class.change_near_dust_or_fee_boundary": 40, "ground.signed_with_short_high_s": 4, "send.returned": 450, "send.signed_decided": 300, "send.unsigned_decided": 50, "inputs.verified": 400,
             "class.amount_hostile": 60, "class.vout_ne_index": 60, "class.multi_input": 100, "class.version2_or_locktime": 100,
             "class.recipient_raw": 40, "class.change_present": 100, "class.change_subdust": 3, "selfcheck.ok": 3,
             "kind.segwit.valid": 80, "kind.legacy.valid": 80}
@@ -180,6 +208,8 @@ def make_dest(kind, rng, net):
 
 
 def amounts(rng, mode, n):
+    if mode.startswith("fixed:"):
+        return [int(mode.split(":")[1])] + [rng.randrange(10 ** 4, 10 ** 6) for _ in range(n - 1)]
     out = []
     for _ in range(n):
         if mode == "hostile":
@@ -202,6 +232,9 @@ def run_case(kind, params, ctx):
     import bits.tx as btx
     import bits.rpc as brpc
     _selfcheck(ctx)
+    if kind == "send_ground":
+        _send_ground(ctx, params)
+        return
     rng = rng_for("C16", params["salt"])
     net = params["net"]
     skind = params["kind"]
@@ -324,6 +357,8 @@ def run_case(kind, params, ctx):
     if R > I:
         ctx.violation(f"conservation/outputs-exceed-inputs/{acl}", f"inputs {I} < recipient+fee {R}")
     rest = I - R
+    if min(fee, DUST) - 2 <= rest <= max(fee, DUST) + 2:
+        ctx.count("class.change_near_dust_or_fee_boundary")
     if len(t["vout"]) > 2:
         ctx.violation("outputs/unexpected-count", f"{len(t['vout'])} outputs")
     if len(t["vout"]) >= 2:
@@ -383,3 +418,75 @@ def run_case(kind, params, ctx):
     ctx.violation(f"sig-invalid/{family}/{'+'.join(causes) or 'unexplained'}",
                   f"sender {skind}, {n_in} inputs, {n_out} outputs, flag {flag:#x}, version {params['version']}, locktime {params['locktime']}, "
                   f"vouts {[u['vout'] for u in spent]}: inputs {[b[0] for b in bad]} invalid: {bad[0][1]}")
+
+
+def _send_ground(ctx, params):
+    """Single-input spend whose signature is forced (by grinding the nonce) to have a short low-S value with the top bit set."""
+    import bits.tx as btx
+    import bits.rpc as brpc
+    from ..ref import sighash as rsh, ecdsa as recdsa
+    from .common import RngShim
+    rng = rng_for("C16g", params["salt"])
+    net, skind = params["net"], params["kind"]
+    snd = make_sender(skind, rng, net, [1, 1])
+    rcpt_addr, rcpt_spk = make_dest("p2pkh", rng, net)
+    sat = rng.randrange(10 ** 6, 10 ** 9)
+    txid = rand_bytes(rng, 32).hex()
+    text = '{"unspents": [{"txid": "%s", "vout": 0, "scriptPubKey": "%s", "amount": %d.%08d}], "total_amount": %d.%08d}' % (
+        txid, snd["spk"].hex(), sat // 10 ** 8, sat % 10 ** 8, sat // 10 ** 8, sat % 10 ** 8)
+    orig = brpc.rpc_method
+    brpc.rpc_method = lambda method, *a, **kw: json.loads(text)
+    try:
+        def build(k):
+            with RngShim(script=[k]) as sh:
+                raw = btx.send_tx(snd["addr"], rcpt_addr, sender_keys=list(snd["wifs"]), sighash_flag=1, rpc_url="scripted")
+            return txref.parse_tx(bytes(raw)), sh
+        try:
+            t1, sh1 = build(rng.randrange(1, N))
+        except ContractViolation as cv:
+            if cv.prop == PROP:
+                raise
+            return
+        except Exception as e:
+            ctx.violation(f"crash/{'legacy' if skind in LEGACY else 'segwit'}/{type(e).__name__}/ground", f"{type(e).__name__}: {e}")
+            return
+        if len(sh1.draws) < 1:
+            ctx.count("ground.no_rng_draw_observed")
+            return
+        # the digest send_tx must have signed for input 0 (reference sighash of the built transaction)
+        d = int.from_bytes(r58.check_decode(snd["wifs"][0])[1:33], "big")
+        pkc = secp.sec1_encode(secp.pub(d), True)
+        if skind in ("p2wpkh", "p2sh-p2wpkh"):
+            sc = b"\x76\xa9\x14" + h160(pkc) + b"\x88\xac"
+            z = int.from_bytes(rsh.bip143_sighash_fields(t1, 0, sc, sat, 1), "big")
+        else:
+            z = int.from_bytes(rsh.legacy_sighash(dict(t1, vin=[dict(t1["vin"][0], script="")]), 0, snd["spk"], 1), "big")
+        k = rng.randrange(1, N)
+        for _ in range(6000):
+            r, sv = recdsa.sign_with_k(d, z % N, k)
+            sl = min(sv, N - sv)
+            if r and sl and sl.bit_length() % 8 == 0 and sl.bit_length() < 256:
+                break
+            k = k % (N - 1) + 1
+        else:
+            ctx.count("ground.grind_failed")
+            return
+        try:
+            t2, sh2 = build(k)
+        except ContractViolation as cv:
+            if cv.prop == PROP:
+                raise
+            ctx.count("send.aborted_by_other_property_contract")
+            return
+        except Exception as e:
+            ctx.violation(f"crash/{'legacy' if skind in LEGACY else 'segwit'}/{type(e).__name__}/signature-with-short-high-bit-s", f"{type(e).__name__}: {e}")
+            return
+    finally:
+        brpc.rpc_method = orig
+    ctx.count("ground.signed_with_short_high_s")
+    ctx.nontrivial()
+    ok, why = interp.verify_input(t2, 0, snd["spk"], sat)
+    ctx.count("inputs.verified")
+    if not ok:
+        fam = "legacy" if skind in LEGACY else "segwit"
+        ctx.violation(f"sig-invalid/{fam}/s-short-with-top-bit", f"sender {skind}: signature whose low-S value is {sl.bit_length() // 8} bytes with the top bit set: {why}")
